@@ -5,6 +5,7 @@ import (
 	"encoding/json"
 	"errors"
 	"fmt"
+	"iter"
 	"net/http"
 	"net/http/httptest"
 	"os"
@@ -245,6 +246,24 @@ func run(p *Plan, count bool) error {
 		v, _ := rte.Annotation(stampKey).(int64)
 		return v
 	}
+	// Sequences obtained once from one iterator and then ranged over by every reader, possibly at the same time: an iterator
+	// is a snapshot, so each traversal yields the same pairs. 24 routes of a method no writer touches give them a tree to walk.
+	for i := 0; i < 24; i++ {
+		f.MustHandle("SEQ", fmt.Sprintf("/s/%c/%c%d", 'a'+i%4, 'a'+i%6, i), func(fox.Context) {})
+	}
+	sharedIt := f.Iter()
+	sharedSeqs := []iter.Seq2[string, *fox.Route]{sharedIt.All(), sharedIt.Prefix(slices.Values([]string{"SEQ", "GET"}), "/s/")}
+	collectSeq := func(seq iter.Seq2[string, *fox.Route], yield bool) string {
+		var sb strings.Builder
+		for m, rte := range seq {
+			sb.WriteString(m + " " + rte.Pattern() + ";")
+			if yield {
+				runtime.Gosched()
+			}
+		}
+		return sb.String()
+	}
+	sharedWant := []string{collectSeq(sharedSeqs[0], false), collectSeq(sharedSeqs[1], false)}
 	var wg sync.WaitGroup
 	start := make(chan struct{})
 	guard := func(who string) {
@@ -476,6 +495,12 @@ func run(p *Plan, count bool) error {
 					if v >= 0 {
 						rec.add(client, st.Key, kIn{Op: "read"}, kOut{Ver: v}, call, ret)
 					}
+				case "shared-seq":
+					i := st.Key % 2
+					if got := collectSeq(sharedSeqs[i], true); got != sharedWant[i] {
+						rec.fail("reader %d: ranging over a sequence of an iterator taken before any writer started yielded [%s], the same sequence yielded [%s] before", r, got, sharedWant[i])
+					}
+					rec.clock.Add(1)
 				case "lookup":
 					req := rt.NewRequest(rt.Req{Method: k.Method, Host: k.Host, Path: k.Path})
 					rte, cc, tsr := f.Lookup(rt.Writer(&rt.NopWriter{H: http.Header{}}, req), req)
@@ -702,7 +727,7 @@ func genPlan(t *rapid.T) *Plan {
 	for r := 0; r < nr; r++ {
 		var steps []RStep
 		for i := 0; i < rlen; i++ {
-			st := RStep{Kind: gen.Pick(t, []string{"has", "route", "serve", "lookup", "reverse", "iter", "view", "version", "iter-reverse", "iter-routes", "iter-prefix", "rtxn-commit", "rtxn-abort"}, "rkind"), Key: gen.IntR(t, 0, len(keys)-1, "rkey"), Yield: gen.Chance(t, 1, 5, "yield")}
+			st := RStep{Kind: gen.Pick(t, []string{"has", "route", "serve", "lookup", "reverse", "iter", "view", "version", "iter-reverse", "iter-routes", "iter-prefix", "rtxn-commit", "rtxn-abort", "shared-seq"}, "rkind"), Key: gen.IntR(t, 0, len(keys)-1, "rkey"), Yield: gen.Chance(t, 1, 5, "yield")}
 			if gen.Chance(t, 1, 4, "infix") {
 				// requests that go through pooled sub-contexts (infix catch-all), concurrently from several readers
 				st.Kind, st.Key = gen.Pick(t, []string{"serve", "lookup"}, "ikind"), infixKey
